@@ -830,8 +830,20 @@ func writeFiles(g gslb_conf.GslbConf, t cluster_table_conf.ClusterTableConf) (di
 
 func exec(op string) string {
 	// a reload that returns with a lock still held would block the listing for ever: watchdog
-	return vh.SafeTimeout(60*time.Second, func() string { return exec1(op) })
+	// 30 s; once several cases of this process have really hung for that long the later ones get 3 s, so that a
+	// defect that wedges many cases does not stall the whole run
+	d := 30 * time.Second
+	if hangs >= 4 {
+		d = 3 * time.Second
+	}
+	res := vh.SafeTimeout(d, func() string { return exec1(op) })
+	if res == "HANG" {
+		hangs++
+	}
+	return res
 }
+
+var hangs int
 
 func exec1(op string) string {
 	w := &world{t: bfe_balance.NewBalTable(nil), seen: map[*backend.BfeBackend]int{}}
